@@ -6,30 +6,39 @@ import numpy as np
 from harness import core
 
 ID = 'C12'
-LEAN_MODULES = ['PydlVerif.Props.C12']
+LEAN_MODULES = ['PydlVerif.Props.C12', 'PydlVerif.Lemmas.ManglePly', 'PydlVerif.Model.ManglePly', 'PydlVerif.Model.MangleExt']
 P_ = 'PydlVerif.C12.'
 THEOREMS = [P_ + t for t in (
     'cap_formula', 'cap_formula_neg', 'cap_centre_inside', 'cap_clip_real', 'clip_dot_unit', 'radec_unit',
     'is_cap_used_testBit', 'polygon_and', 'polygon_no_caps', 'polygon_ncaps_ignores_rest',
     'window_first', 'first_from_least', 'window_formats_agree',
     'or_bits_testBit', 'use_caps_bits', 'use_caps_allow_doubles',
-    'record_take', 'balkans_slice')]
+    'record_take', 'balkans_slice',
+    'ply_roundtrip_lex', 'ply_roundtrip_partial', 'ply_window_format_independent_partial', 'ply_use_caps_all',
+    'circle_cap_within', 'circle_cap_fields', 'add_caps_membership', 'add_caps_selected_and', 'polyn_spec', 'record_scalar',
+    'ply_bad_first_line', 'ply_no_first_line', 'ply_count_mismatch_refused', 'ply_missing_rows_refused', 'ply_zero_caps_refused')]
 RULE = ('polygon lists of 1-6 polygons with 0-6 caps each (centres random / axis / built from RA,Dec; cm random in (0,2), tiny, 1, 2, '
         'both signs; use-masks all-caps, random, with bits above ncaps), built around a focus point so that first-match indices spread; '
         'points: random on the sphere, near the focus, every cap centre and antipode, on cap boundary circles, each as xyz and as RA/Dec; '
         'ncaps argument 0, negative, 1..ncaps+1; every list goes through ManglePolygon objects, a .ply file, a FITS table raw and '
         'converted, and window_blist/window_bcaps + window_read(balkans=True); set_use_caps: random index lists (subsets, repeats, '
-        'out of order), add on/off, doubles exact / within tol / beyond tol / sign-flipped, the three switches. A case is non-trivial '
+        'out of order), add on/off, doubles exact / within tol / beyond tol / sign-flipped, the three switches; .ply texts: 1-6 or 20-60 '
+        'polygons in Mangle layout or with every lexical freedom the reader allows, 29 kinds of single malformation; circle_cap radii 0, '
+        '180, random, tiny, scalar or per point; add_caps / polyn with 1-3 new caps, index in or out of range; one-cap FITS tables with '
+        'NCAPS 0 or 1. A case is non-trivial '
         'when at least one used cap is evaluated (membership) or one bit is set (set_use_caps); distinct = distinct case payloads')
 TRUSTED = ['hand-written model lean/PydlVerif/Model/Mangle.lean tied to the code by the I/O correspondence of this run',
            'libm/numpy sin cos arccos and BLAS dot (parameters of the model: Float instance on the Lean side, compared with tolerance)',
-           'astropy.io.fits / astropy.table (file storage), Python float<->text conversion in the .ply reader']
+           'astropy.io.fits / astropy.table (file storage), Python float<->text conversion in the .ply reader (parameter parseF of the model)',
+           'hand-written models lean/PydlVerif/Model/ManglePly.lean (scanners + parser) and Model/MangleExt.lean, tied to the code by the '
+           'ply / ply-malformed / plylex / circlecap / addcaps / polyn / record1 streams of this run']
 ASSUMPTIONS = ['cap centres and Cartesian points are unit vectors to rounding, |cm| <= 2, all values finite float64 (FITS columns of type D)',
                'use-masks are non-negative and ncaps <= 30 (USE_CAPS is a 32-bit column); index lists hold non-negative integers',
                'every polygon stores at least NCAPS caps, ICAP >= 0 and ICAP+NCAPS stays inside window_bcaps (other tables are corrupt; the model '
                'reproduces the IndexError/ValueError, the theorems assume well-formed input)',
                'points are 2- or 3-column arrays; a point within 1e-12 (in 1 - x.p) of the boundary circle of a relevant cap is not decided '
                'by the oracle and not compared (counted as boundary)',
+               '.ply files are ASCII, centres need not be unit vectors for the reader (the membership oracle is applied to files with unit centres)',
                '.ply files carry no use-mask: after reading, the harness assigns polygon.use_caps (public attribute) when the mask is not all-caps']
 MARGIN = 1e-12
 
@@ -1030,6 +1039,9 @@ def run(ctx):
     stream_window(ctx)
     stream_usecaps(ctx)
     stream_storage(ctx)
+    from harness.props import c12_ply
+    c12_ply.stream_ply(ctx)
+    c12_ply.stream_ext(ctx)
     if (not ok or len(ctx.disagreements) > n0) and not ctx.violations:
         directed_search(ctx)
 
@@ -1089,6 +1101,15 @@ def replay(ctx, case):
         check_usecaps(ctx, case)
     elif s == 'balkans':
         check_balkans(ctx, case)
+    elif s == 'circlecap':
+        from harness.props import c12_ply
+        c12_ply.check_circlecap(ctx, case)
+    elif s in ('addcaps', 'polyn'):
+        from harness.props import c12_ply
+        c12_ply.check_addcaps(ctx, case)
+    elif s in ('ply', 'ply-malformed', 'plylex'):
+        from harness.props import c12_ply
+        c12_ply.check_ply(ctx, dict(case, stream='ply-malformed' if s == 'plylex' and 'F' not in case else ('ply' if 'F' in case else s)))
     else:
         run(ctx)
 
@@ -1100,9 +1121,19 @@ LEVEL_TEXT = ('Machine-checked Lean 4 theorems over an executable model of cap_d
               'the point or (-1, False), independent of the storage form; set_use_caps sets exactly the listed bits minus later '
               'doubles of a kept cap; balkans polygon k holds bcaps[ICAP_k : ICAP_k+NCAPS_k] - for all list lengths, masks and index '
               'lists. The model is tied to the repository on every run by I/O correspondence through ManglePolygon objects, .ply text, '
-              'FITS raw / converted and window_blist/bcaps files, with an independent exact-arithmetic membership oracle.')
+              'FITS raw / converted and window_blist/bcaps files, with an independent exact-arithmetic membership oracle. '
+              'Extension: read_mangle_polygons is modelled character by character (scanners for strip/split/the header regex, then the '
+              'token-level parser with every exception the code raises); proved for all polygon lists: the canonical file parses back to '
+              'exactly the keyword lines and polygons (ids, weights, pixel, str, caps, all-caps mask) under the float-text round-trip '
+              'hypothesis, membership is therefore independent of the text format, and a bad first line / a cap count that differs '
+              'from the rows present / zero caps are refused; circle_cap(r, p) contains exactly the points within r degrees; add_caps / '
+              'polyn append caps, keep the mask, and give the intersection once the caps are selected; one-cap FITS rows keep their cap.')
 LEVEL_NOTE = ('Trusted: Lean kernel, axioms propext/Classical.choice/Quot.sound at most, the hand-written model (validated only by the '
               'correspondence sample), astropy FITS/Table I/O, float<->text. The theorems are over exact reals: float rounding of the dot '
               'product / arccos is not exhibited by the model beyond the clip to [-1,1]; decisions within 1e-12 of a cap boundary are '
               'not compared. For cm < 0 the code includes the boundary circle (1 - x.p >= |cm|) where the statement says complement; '
-              'stated as cap_formula_neg. File parsing (.ply text, FITS) is compared, not modelled.')
+              'stated as cap_formula_neg. FITS byte parsing is astropy (compared, not modelled). .ply: the round trip is proved on the '
+              'lexed lines (ply_roundtrip_lex); on characters it is ply_roundtrip_partial / ply_window_format_independent_partial with '
+              'the named hypothesis hlex (scanners applied to the rendered text give the canonical lines) - evaluated for a concrete file '
+              'in Lean and compared for every generated file (plylex stream), not proved in general. float(text) is a parameter (table '
+              'of Python float() per token), ASCII files only. record_scalar assumes 0 + x = x (all floats but -0.0).')
